@@ -497,7 +497,8 @@ func writeAliasFile(indexName *string, allnames map[string]bool, orgid int64) er
 		return err
 	}
 
-	err = os.WriteFile(filename, jdata, 0644)
+	// via a temporary file and rename: an empty alias file makes GetAliases fail, and with it start-up
+	err = utils.AtomicWriteFile(filename, jdata, utils.Truncate)
 	if err != nil {
 		log.Errorf("writeAliasFile: Failed write to the file=%v, err=%v", filename, err)
 		return err
